@@ -83,13 +83,64 @@ type Recorder struct {
 	F       []int64 // per Flush / Mark: bytes emitted since the previous event of that stream
 	C       []int64 // per Close: bytes emitted since the previous event of that stream
 	cur     *Stream // the open stream (single-writer runs)
+
+	// fault injection (fault stream only; see fault.go)
+	FailAfter  int64  // >= 0: the writer below the compressor fails once so many compressed bytes went through
+	FailOpenAt int    // > 0: the k-th Compression.Writer call of this run fails
+	Gate       func() // called (once) right before the first injected write error is returned
+	total      int64
+	opens      int
+	gated      bool
+	injected   bool
+}
+
+// Injected: an injected fault was really returned to the code under test.
+func (r *Recorder) Injected() bool {
+	r.mu.Lock()
+	defer r.mu.Unlock()
+	return r.injected
+}
+
+// ErrInjected is the error of every injected fault.
+var ErrInjected = fmt.Errorf("verif: injected fault")
+
+// OpenErr is called by the adapters at the top of Compression.Writer.
+func (r *Recorder) OpenErr() error {
+	r.mu.Lock()
+	defer r.mu.Unlock()
+	r.opens++
+	if r.FailOpenAt > 0 && r.opens == r.FailOpenAt {
+		r.injected = true
+		return ErrInjected
+	}
+	return nil
+}
+
+func (r *Recorder) before(n int) error {
+	r.mu.Lock()
+	if r.FailAfter < 0 || r.total+int64(n) <= r.FailAfter {
+		r.total += int64(n)
+		r.mu.Unlock()
+		return nil
+	}
+	gate := r.Gate
+	if r.gated {
+		gate = nil
+	}
+	r.gated = true
+	r.injected = true
+	r.mu.Unlock()
+	if gate != nil {
+		gate()
+	}
+	return ErrInjected
 }
 
 // Mark is called right before an AppendTar call.  Since 6f1f089 appendTar closes the open stream
 // first (a Close event), so there is nothing to record here any more.
 func (r *Recorder) Mark() {}
 
-func NewRecorder() *Recorder { return &Recorder{writers: map[io.Writer]struct{}{}} }
+func NewRecorder() *Recorder { return &Recorder{writers: map[io.Writer]struct{}{}, FailAfter: -1} }
 
 func (r *Recorder) Writers() int {
 	r.mu.Lock()
@@ -114,6 +165,9 @@ func (r *Recorder) NewStream(under io.Writer) *Stream {
 }
 
 func (s *Stream) Write(p []byte) (int, error) {
+	if err := s.r.before(len(p)); err != nil {
+		return 0, err
+	}
 	n, err := s.under.Write(p)
 	s.n += int64(n)
 	return n, err
@@ -222,11 +276,24 @@ type runner struct {
 	// only there, so that the main stream stays silent on the unchanged tree and every OTHER failure or
 	// model mismatch in it is reported.
 	findings bool
+	// fault stream: the Result of the real code, and one record per chunk entry read by the documented rule
+	// (the chunk's bytes and whether the recorded chunkDigest is their SHA-256) for the d.chunk ops
+	res     *Result
+	digRecs []digRec
+}
+
+type digRec struct {
+	data []byte
+	ok   bool
 }
 
 // RunCase runs one case on the real code, evaluates the property oracle and emits the
 // correspondence lines.  maxCheck bounds the payload bytes sent to the proved checker.
 func RunCase(out *verifutil.Out, t *Target, c *Case, maxCheck int, findings bool) {
+	runCase(out, t, c, maxCheck, findings)
+}
+
+func runCase(out *verifutil.Out, t *Target, c *Case, maxCheck int, findings bool) *runner {
 	out.Comment(fmt.Sprintf("case %s fmt=%s mode=%s chunk=%d min=%d level=%d workers=%d prio=%d incomp=%q calls=%d",
 		c.Label, t.Fmt, c.Mode, c.Chunk, c.MinChunk, c.Level, c.Workers, len(c.Prio), c.InComp, len(c.Calls)))
 	rn := &runner{out: out, t: t, c: c, findings: findings}
@@ -245,6 +312,7 @@ func RunCase(out *verifutil.Out, t *Target, c *Case, maxCheck int, findings bool
 		out.Count("minchunk")
 	}
 	rn.run(maxCheck)
+	return rn
 }
 
 func (rn *runner) run(maxCheck int) {
@@ -333,6 +401,7 @@ func (rn *runner) run(maxCheck int) {
 		rn.fail("error-expected", "the input holds an entry the writer must refuse, but a blob was produced")
 		return
 	}
+	rn.res = res
 	blob := res.Blob
 	p, sig, perr := ParseBlob(t.Fmt, blob, res.ExtTOC)
 	if perr != nil {
@@ -840,6 +909,7 @@ func (rn *runner) checkTOC(p *Parsed, items []TarItem) {
 				rn.fail("chunk-bytes-mismatch", fmt.Sprintf("%q chunk at %d (+%d): member at %d, innerOffset %d holds other bytes", e.Name, pos, sz, ce.Offset, ce.InnerOffset))
 				return
 			}
+			rn.digRecs = append(rn.digRecs, digRec{data, ce.ChunkDigest == sha(data)})
 			if ce.ChunkDigest != sha(data) {
 				rn.fail("chunk-digest-mismatch", fmt.Sprintf("%q chunk at %d", e.Name, pos))
 			}
@@ -858,6 +928,10 @@ func (rn *runner) checkTOC(p *Parsed, items []TarItem) {
 // RunAll: the hand-written scenarios, then n generated cases.  VERIF_C03_STREAM=findings selects the
 // separate pass of the known finding (Unpack of a blob without data members): scenarios only.
 func RunAll(out *verifutil.Out, t *Target, n, maxCheck int) {
+	if os.Getenv("VERIF_C03_STREAM") == "faults" {
+		RunFaults(out, t, n, maxCheck)
+		return
+	}
 	findings := os.Getenv("VERIF_C03_STREAM") == "findings"
 	r := verifutil.NewRand(verifutil.Seed()*7919 + uint64(t.Fmt[0]))
 	if findings {
